@@ -274,7 +274,9 @@ func c08fields(c Case, env *Env, res *Result) {
 	g := zoo.NewGen(c.Seed, zoo.DefaultCfg())
 	for j := 0; j < c.Count; j++ {
 		f := g.R.NormFloat64()
-		switch r.Intn(5) {
+		switch r.Intn(6) {
+		case 5:
+			f = []float64{math.NaN(), math.Inf(1), math.Inf(-1), math.Copysign(0, -1), math.MaxFloat32, math.SmallestNonzeroFloat32}[r.Intn(6)]
 		case 0:
 			f = zoo.F64Table[r.Intn(len(zoo.F64Table))]
 		case 1:
@@ -288,9 +290,7 @@ func c08fields(c Case, env *Env, res *Result) {
 		if c.Sub >= 0 && j != c.Sub {
 			continue
 		}
-		if math.IsNaN(f) && (pos == "f32field" || pos == "f32elem") {
-			f = 1.5
-		}
+
 		f32 := float32(f)
 		feats := append(doubleFeatures(f), "pos="+pos)
 		cc := c
